@@ -11,7 +11,7 @@ KERNEL_MODULES = ("sse2::", "sse41::", "avx2::", "avx512::", "neon::")
 
 
 def flavour(F):
-    if F.cfg in ("portable1", "neon1"):
+    if F.cfg in ("portable1", "neon1", "portable32", "x86-32"):
         return "portable1"        # no run-time detection, hence no statics
     if F.cfg.startswith("pure"):
         return "pure"
@@ -286,3 +286,82 @@ def rule_W1(ctx, F):
                 bound = c[3]
                 okl = unify(P.bin("Mul", SD, ("const", "CHUNK_LEN", 1024)), c[3]) is not None or unify(P.bin("Mul", ("const", "CHUNK_LEN", 1024), SD), c[3]) is not None
     ctx.ob(okl, "subtree-leaf-width-is-simd-degree", fn.loc, "leaf case taken when input.len() <= %s ; required platform.simd_degree() * CHUNK_LEN" % (show(bound)[:100] if bound else "?"))
+
+
+def _simd_degrees(F):
+    """the values Platform::simd_degree can return in this configuration (constants assigned to its return place)"""
+    f = F.need_fn("platform::Platform::simd_degree")
+    carried = {0}
+    for bi, si, s in f.stmts():      # the local copied into the return place
+        if s["place"]["l"] == 0 and not s["place"]["p"] and s["rv"].get("k") == "use" and s["rv"]["op"].get("k") in ("copy", "move") and not s["rv"]["op"]["place"]["p"]:
+            carried.add(s["rv"]["op"]["place"]["l"])
+    out = set()
+    for bi, si, s in f.stmts():
+        if s["place"]["l"] in carried and not s["place"]["p"] and s["rv"].get("k") == "use" and s["rv"]["op"].get("k") == "const" \
+                and s["rv"]["op"].get("ty") == "usize" and isinstance(s["rv"]["op"].get("val"), int):
+            out.add(s["rv"]["op"]["val"])
+    return out
+
+
+def _eval_bound(e, d):
+    if not isinstance(e, tuple):
+        return None
+    if e[0] == "const" and isinstance(e[2], int):
+        return e[2]
+    if e[0] == "call" and e[1].endswith("simd_degree"):
+        return d
+    if e[0] == "cast":
+        return _eval_bound(e[1], d)
+    if e[0] == "bin":
+        a, b = _eval_bound(e[2], d), _eval_bound(e[3], d)
+        if a is None or b is None:
+            return None
+        op = e[1].replace("WithOverflow", "")
+        return {"Mul": a * b, "Add": a + b, "Sub": a - b, "Div": a // b if b else None, "Shl": a << b if 0 <= b < 64 else None}.get(op)
+    if e[0] == "call" and e[1].endswith("::max") and len(e[2]) == 2:
+        a, b = _eval_bound(e[2][0], d), _eval_bound(e[2][1], d)
+        return None if a is None or b is None else max(a, b)
+    return None
+
+
+def rule_AB(ctx, F):
+    """adequacy of the internal size assertions of the tree recursion, for every SIMD degree the configuration can select:
+    compress_chunks_parallel is handed up to simd_degree chunks (W1: the leaf case is input.len() <= simd_degree * CHUNK_LEN) and
+    compress_parents_parallel up to 2 * max(simd_degree, 2) children (each half returns at most max(simd_degree, 2) chaining
+    values; with degree 1 it returns 2, never 1).  An upper-bound assertion on those quantities that is tighter than that for some
+    degree fires on ordinary input.  Bounds that cannot be evaluated are reported as not decided."""
+    degs = sorted(_simd_degrees(F) | {1})
+    req = {"compress_chunks_parallel": ("len(input)", lambda d: d * 1024), "compress_parents_parallel": ("children", lambda d: 2 * max(d, 2))}
+    n = 0
+    for fn, (what, need_) in sorted(req.items()):
+        f = F.need_fn(fn)
+        for bi, t in f.calls():
+            cn = callee_name(t["callee"])
+            if not ("panicking::panic" in cn or "assert_failed" in cn):
+                continue
+            gs = guards_at(f, bi)
+            if not gs:
+                continue
+            c, tr = gs[-1]
+            if not (isinstance(c, tuple) and c[0] == "bin" and c[1] in ("Le", "Lt") and tr is False):
+                continue
+            lhs = show(c[2])
+            if not ("len(" in lhs and ("input" in lhs or "child" in lhs)):
+                continue
+            n += 1
+            bad = []
+            und = False
+            for d in degs:
+                b = _eval_bound(c[3], d)
+                if b is None:
+                    und = True
+                    break
+                lim = b if c[1] == "Le" else b - 1
+                if lim < need_(d):
+                    bad.append("degree %d: asserts %s <= %d, but up to %d arrive" % (d, what, lim, need_(d)))
+            if und:
+                ctx.info("assertion bound %s in %s is not evaluable; not decided" % (show(c[3])[:60], fn))
+                ctx.ob(True, "assert-bound:%s:%s" % (fn, what), t.get("s", f.loc), "bound %s not evaluable; not decided" % show(c[3])[:60])
+                continue
+            ctx.ob(not bad, "assert-bound:%s:%s" % (fn, what), t.get("s", f.loc), "; ".join(bad) or "assert(%s <= %s) admits everything the recursion can pass for degrees %s" % (what, show(c[3])[:50], degs))
+    ctx.floor("size assertions of the tree recursion", n, 2)
